@@ -577,6 +577,19 @@ class Exec:
 
     def compare(self, op, a, b, st, fr, node=None):
         on = type(op).__name__
+        if on not in ('Is', 'IsNot', 'In', 'NotIn'):
+            for which, x in (('a', a), ('b', b)):
+                other = b if which == 'a' else a
+                if isinstance(x, SOpt) and isinstance(x.inner, (SVal, SInt)) and not isinstance(other, (SNone, SOpt)):
+                    # an optional number compared with a number: None is unequal to every number and unordered (TypeError)
+                    def some(s, which=which, x=x):
+                        return self.compare(op, x.inner if which == 'a' else a, x.inner if which == 'b' else b, s, fr, node)
+
+                    def none(s):
+                        if on in ('Eq', 'NotEq'):
+                            return self.ok(SBool(on == 'NotEq'), s)
+                        return self.exc('TypeError', s)
+                    return self.split(x.isnone, st, none, some)
         if on in ('Is', 'IsNot'):
             r = self.C.identical(a, b, st)
             return self.ok(SBool(r if on == 'Is' else z3.Not(r)), st)
